@@ -18,14 +18,14 @@ import asyncio
 from tornado import httputil, web
 
 from sim.env import SimEnv, UNIT
-from props import httprig
+from props import httprig, _rigx
 from ref.xheaders import expected, valid_ip
 
 ID = "C32"
 LEVEL = "exploration"
-QUICK_N = 24000
-THOROUGH_N = 900000
-CHUNK = 300
+QUICK_N = 48000
+THOROUGH_N = 3000000
+CHUNK = 500
 RULE = ("gen(seed): 1-2 connections (IPv4 / IPv6 / unix-socket peers), 2-4 keep-alive requests each "
         "with per-request X-Real-Ip / X-Forwarded-For / X-Scheme / X-Forwarded-Proto drawn from "
         "valid, short-form, trusted, garbage, empty and list values; handler kinds sync / async "
@@ -52,6 +52,7 @@ ASSUMPTIONS = [
 ]
 
 _NOLOG = (lambda handler: None)
+
 
 # --------------------------------------------------------------------------
 # handlers
@@ -445,7 +446,7 @@ def run(scn, full_log=False):
                 kw["protocol"] = knobs["protocol"]
             if knobs.get("chunk_size"):
                 kw["chunk_size"] = knobs["chunk_size"]
-            server, ls4, rapp = httprig.start_server(env, _make_app(knobs.get("app"), st), **kw)
+            server, ls4, rapp = _rigx.start_server(env, _make_app(knobs.get("app"), st), **kw)
             box["server"], box["rapp"] = server, rapp
             listeners = {4: ls4}
             peers = []
@@ -533,8 +534,9 @@ def run(scn, full_log=False):
                     bad("xheaders.protocol_not_http_or_https", f"{where}: protocol={proto!r}")
                 prev_term = earlier[-1][3] if earlier else ""
                 if ip not in ips:
+                    own = " ".join(v for _, v in lines)
                     src = [e for e in earlier if e[1] == ip]
-                    if src:
+                    if src and ip != sock_ip and (not isinstance(ip, str) or ip not in own):
                         bad("xheaders.remote_ip_leak",
                             f"{where}: remote_ip={ip!r}, allowed {sorted(ips)}; that is what request "
                             f"{src[-1][0]} of the same connection had (it ended with "
@@ -544,8 +546,10 @@ def run(scn, full_log=False):
                             f"{where}: remote_ip={ip!r}, allowed {sorted(ips)}",
                             "from_header" if ip != sock_ip else "socket")
                 if proto not in protos:
+                    own = " ".join(v for _, v in lines)
                     src = [e for e in earlier if e[2] == proto]
-                    if src:
+                    if src and proto != conn_proto and (not isinstance(proto, str)
+                                                        or proto not in own):
                         bad("xheaders.protocol_leak",
                             f"{where}: protocol={proto!r}, allowed {sorted(protos)}; that is what "
                             f"request {src[-1][0]} of the same connection had (it ended with "
